@@ -1221,6 +1221,14 @@ impl<'ctx> ByteCompiler<'ctx> {
         condition: &Expression,
         hoisted: Option<&HoistedOperand>,
     ) -> Label {
+        #[cfg(boa_verif)]
+        if crate::verif::switch(crate::verif::NO_FUSED_BRANCH) {
+            let value = self.register_allocator.alloc();
+            self.compile_expr(condition, &value);
+            let label = self.jump_if_false(&value);
+            self.register_allocator.dealloc(value);
+            return label;
+        }
         // `flatten()` strips outer parentheses so that conditions like
         // `(a < b)` (common in ternaries and hand-parenthesized code) still
         // reach the fused comparison+branch path.
@@ -1247,6 +1255,10 @@ impl<'ctx> ByteCompiler<'ctx> {
         &mut self,
         condition: Option<&Expression>,
     ) -> Option<HoistedOperand> {
+        #[cfg(boa_verif)]
+        if crate::verif::switch(crate::verif::NO_LOOP_HOIST) {
+            return None;
+        }
         let condition = condition?;
         let Expression::Binary(binary) = condition else {
             return None;
@@ -2275,6 +2287,10 @@ impl<'ctx> ByteCompiler<'ctx> {
                                     .emit_move(cache_reg.variable(), value.variable());
                                 self.const_binding_cache
                                     .insert(binding.locator(), cache_reg.index());
+                                #[cfg(boa_verif)]
+                                if crate::verif::switch(crate::verif::NO_CONST_CACHE) {
+                                    self.const_binding_cache.remove(&binding.locator());
+                                }
                                 self.register_allocator.dealloc(value);
                             }
                         }
